@@ -1923,10 +1923,15 @@ def c18c(chk):
                 if gp == f.path and not content and any(v - {"core::slice::<impl [T]>::is_empty"} for k_, v in per_fn.items() if k_ != gp):
                     continue
                 # the key names the sinks, so that a further content-dependent decision at an already recorded site is a new violation
-                kx = ("[sinks=%s]" % ",".join(x.split("::")[-1] for x in content)) if content else ""
+                # (by kind, not by method: peeking at a prefix through get(..n), starts_with, first, split_first, [..n], == is one kind)
+                kinds = sorted({("prefix" if x.split("::")[-1] in PREFIX_PEEKS else x.split("::")[-1]) for x in content})
+                kx = ("[sinks=%s]" % ",".join(kinds)) if content else ""
                 chk.ob("C18.c", "fill_buf@%s/only-emptiness%s" % (gp, kx), not content, f.loc(b),
                        "the bytes returned by fill_buf (one chunk of unspecified length) may only be tested with is_empty(); here they also flow into %s%s, "
                        "so the decision depends on how the stream was chunked" % (content, "" if gp == f.path else " in %s" % gp))
+
+
+PREFIX_PEEKS = ("get", "starts_with", "first", "index", "split_first", "split_at", "split_at_checked", "first_chunk", "split_first_chunk", "eq", "ne", "iter", "len", "contains")
 
 
 def c18e(chk):
